@@ -64,12 +64,14 @@ fn states_of_peer(data: &Value, p: &str, my_unused: &BTreeMap<String, u64>) -> (
     (classes, values)
 }
 
-/// a stream fold may visit equal values (two appends of the same value): instances then share a class
+/// a fold over a stream, a map or a canonical stream may visit equal values (two appends of the same
+/// value): instances then share a class
 fn has_stream_fold(ins: &crate::ast::Ins) -> bool {
     let mut found = false;
     ins.walk(&mut |i| {
         if let crate::ast::Ins::Fold { iterable: crate::ast::Val::Var(n), .. } = i {
-            if n.starts_with('$') || n.starts_with('%') {
+            // canonical streams too: `(ap x $s)` inside a fold puts the same value into the stream several times
+            if n.starts_with('$') || n.starts_with('%') || n.starts_with('#') {
                 found = true;
             }
         }
